@@ -240,6 +240,7 @@ func runCheck(id, tier string, seed int, overlay map[string][]byte, writeEvidenc
 	os.MkdirAll(replayDir, 0o755)
 	var samples []any
 	seenKnown := map[string]bool{}
+	var foreign []string
 	for _, g := range groups {
 		for s, n := range g.Solvers {
 			perSolver[s] += n
@@ -254,6 +255,11 @@ func runCheck(id, tier string, seed int, overlay map[string][]byte, writeEvidenc
 			if len(samples) < 6 && g.Kind != "engine" && (len(samples) == 0 || g.Func != groups[0].Func || len(samples) < 3) {
 				samples = append(samples, map[string]any{"obligation": g.Name, "kind": g.Kind, "clause": g.Desc, "path_queries": g.Queries, "solvers": g.Solvers})
 			}
+			continue
+		}
+		if len(g.Props) > 0 && !containsStr(g.Props, id) {
+			// a clause owned by other properties (tagged [Cxx]) in a shared function: reported by their checks
+			foreign = append(foreign, g.Name+" ("+strings.Join(g.Props, ",")+")")
 			continue
 		}
 		if kf, ok := knownByObl[g.Name]; ok {
@@ -356,6 +362,7 @@ func runCheck(id, tier string, seed int, overlay map[string][]byte, writeEvidenc
 			"bounded_checks":            bnd,
 			"inventory_checks":          invs,
 			"failed_known_findings":     failedKnown,
+			"failing_obligations_owned_by_other_properties": foreign,
 			"known_findings_reported":   len(knownReported),
 			"integers":                  "Go integers are fixed-width bit-vectors with wrap-around (no mathematical-integer abstraction) unless a function is marked ints=math",
 			"back_ends":                 "cvc5 1.0 leads; z3 5.1, z3 5.1 (MBQI only) and z3 4.8.12 are raced when it is undecided; thorough tier runs all and requires agreement",
@@ -373,6 +380,15 @@ func runCheck(id, tier string, seed int, overlay map[string][]byte, writeEvidenc
 		return 1
 	}
 	return 0
+}
+
+func containsStr(xs []string, x string) bool {
+	for _, y := range xs {
+		if y == x {
+			return true
+		}
+	}
+	return false
 }
 
 func resolveFuncArgQuiet(w *World, a string) string {
